@@ -2,7 +2,7 @@
 # usage: process_mutant.sh <agent worktree> <seeded id> <prop>...   confirm, remove the worktree, try the checks, print what the replay says
 SRC=$1; ID=$2; shift 2
 cd /verif
-tools/confirm_mutant.sh $SRC $ID 2>&1 | tail -6
+tools/confirm_mutant.sh $SRC $ID 2>&1 | tail -9
 git -C /repo worktree remove --force $SRC 2>/dev/null; git -C /repo worktree prune
 tools/try_seeded.sh $ID "$@" 2>&1 | tail -$((2*$#))
 for p in "$@"; do python3 - $p <<'PY'
